@@ -1,11 +1,12 @@
 SPEC = {
     "id": "C04",
-    "level": "exploration",
-    "sidecars": [], "functions": [],
+    "level": "other",
+    "sidecars": ['normalize_url'],
+    "functions": ['ural/normalize_url.py:should_strip_fragment', 'ural/normalize_url.py:qsl_sort_key', 'ural/normalize_url.py:should_strip_query_item'],
     "bounded": ["bcheck.c04"],
-    "technique": "bounded run-time checking of relational contracts on the real normalize_url (no contract within deductive reach decides string-to-string invariance through regex / urlsplit code)",
     "explanation": (
-        "BOUNDED only. normalize_url(T(u)) == normalize_url(u) for every transformation T of the documented-irrelevant family, alone on each base "
+        "Deductive extras (all inputs, pyvc): should_strip_fragment is exactly 'starts with / or ! and is more than the bare marker'; qsl_sort_key is total and injective on items (key, value or empty, bare-key flag), which makes sorted() insensitive to the input order of distinct items; should_strip_query_item keeps an item only if the caller's own filter accepted it. "
+        "Deciding step BOUNDED: normalize_url(T(u)) == normalize_url(u) for every transformation T of the documented-irrelevant family, alone on each base "
         "URL and randomly composed (one variation per kind), with tracking items at every position and every permutation of up to 4 query items; "
         "repeated with quoted=True and platform_aware=True; plus 'redirection inference is exactly a pre-step'. Every clause relates two calls through "
         "regex substitution, filtering, sorting and urlsplit; pyvc's reach (EUF + integers + sequences) cannot express it and the string / regex "
